@@ -50,12 +50,19 @@ def explore(make, name, values, op, same, depth, p, sub, what, first_only_fresh=
             bad = None
             for step, v in enumerate(seq):
                 _set(da, name, v)
-                got = run(da)
-                exp = fresh[v]
-                ok = got[0] == exp[0] and (same(got[1], exp[1]) if got[0] == "ok" else got[1] == exp[1])
-                p.count(sub, evaluations=1, states=1, transitions=1, nontrivial=int(step > 0))
-                if not ok:
-                    bad = step
+                for rep in range(2):          # the operation twice per step: a call must not consume / alter the attribute
+                    got = run(da)
+                    exp = fresh[v]
+                    ok = got[0] == exp[0] and (same(got[1], exp[1]) if got[0] == "ok" else got[1] == exp[1])
+                    p.count(sub, evaluations=1, states=1, transitions=1, nontrivial=int(step > 0 or rep > 0))
+                    if not ok:
+                        bad = step
+                        break
+                    if v != ABSENT and da.attrs.get(name) != v or v == ABSENT and name in da.attrs:
+                        ok = False
+                        bad = step
+                        break
+                if bad is not None:
                     break
             if bad is not None:
                 shown = [str(v) for v in seq[:bad + 1]]
